@@ -249,6 +249,7 @@ def compile_program(d: str, main: G.Schema, rng: random.Random, with_trivia: boo
 
 def check(run: common.Run, drv: common.Driver, rng: random.Random, tier: str) -> None:
     n = 160 if tier == "quick" else 3000
+    c_budget = [14 if tier == "quick" else 220]
     with R.Scratch() as sc:
         for k in range(n):
             _case[0] += 1
@@ -274,6 +275,22 @@ def check(run: common.Run, drv: common.Driver, rng: random.Random, tier: str) ->
                                "expected_by_spec": "the rewritten schema is valid and compiles like the original"})
                 continue
             applied.append("trivia")
+            # C (standard mode, and -O when the schema is traditional) on a sample of single-file pairs
+            cmods: List[Tuple[str, Any, Any]] = []
+            if c_budget[0] > 0 and not s1.imports and not s2.imports:
+                c_budget[0] -= 1
+                from . import creal
+                from .props_c15 import has_ext as _has_ext
+
+                try:
+                    t1, t2 = files1[f"{s1.base()}.bitproto"], files2[f"{s2.base()}.bitproto"]
+                    cmods.append(("c", creal.CModule(sc, s1, t1, f"{s1.base()}"), creal.CModule(sc, s2, t2, f"{s2.base()}")))
+                    if not _has_ext(s1) and not _has_ext(s2):
+                        cmods.append(("c -O", creal.CModule(sc, s1, t1, f"{s1.base()}", optimize=True), creal.CModule(sc, s2, t2, f"{s2.base()}", optimize=True)))
+                    run.count("pairs_compiled_to_c")
+                except Exception as e:
+                    run.count("c_build_skipped:" + type(e).__name__)
+                    run.notes.setdefault("c_build_skipped", []).append(str(e)[-300:])
             for m1 in s1.messages():
                 m2 = memo[id(m1)]
                 mod1, mod2 = ModSet(mods1.values()), ModSet(mods2.values())
@@ -291,6 +308,18 @@ def check(run: common.Run, drv: common.Driver, rng: random.Random, tier: str) ->
                         b1, b2 = "?", f"{type(e).__name__}: {e}"
                     if k < 2:
                         run.sample({"rewrites": applied, "message": m1.name, "bytes": b1}, limit=3)
+                    for (cname, cm1, cm2) in cmods:
+                        try:
+                            cb1, cb2 = cm1.encode(m1, v1)[0].hex(), cm2.encode(m2, v2)[0].hex()
+                        except Exception as e:
+                            cb1, cb2 = "?", f"{type(e).__name__}: {e}"
+                        if not (cb1 == cb2 == b1):
+                            run.violation({"kind": "impl-vs-spec", "language": cname,
+                                           "input": {"files_original": files1, "files_rewritten": files2, "rewrites": applied,
+                                                     "message_original": G.py_name(m1), "message_rewritten": G.py_name(m2),
+                                                     "value_original": G.msg_val_json(m1, v1)},
+                                           "observed_impl": {"original": cb1, "rewritten": cb2, "python": b1},
+                                           "expected_by_spec": "identical bytes for corresponding values, in every language and mode"})
                     if b1 != b2:
                         run.violation({"kind": "impl-vs-spec", "input": {"files_original": files1, "files_rewritten": files2, "rewrites": applied,
                                                                           "message_original": G.py_name(m1), "message_rewritten": G.py_name(m2),
